@@ -76,27 +76,27 @@ fn blank_cut(super_res: u8, waveform: u8, channel: u8, tag: u16) -> CutSpec {
 }
 
 pub fn vcp_message(cuts: &[(u8, u8, u8)]) -> vcp::Message {
-    vcp::Message {
-        header: vcp::Header {
-            message_size: (11 + 23 * cuts.len()) as u16,
-            pattern_type: 2,
-            pattern_number: 212,
-            number_of_elevation_cuts: cuts.len() as u16,
-            version: 1,
-            clutter_map_group_number: 0,
-            doppler_velocity_resolution: 2,
-            pulse_width: 2,
-            reserved_1: 0,
-            vcp_sequencing: 0,
-            vcp_supplemental_data: 0,
-            reserved_2: 0,
-        },
-        elevations: cuts
-            .iter()
-            .enumerate()
-            .map(|(i, (sr, wf, ch))| cut_block(&blank_cut(*sr, *wf, *ch, i as u16)))
-            .collect(),
-    }
+    // The message value is obtained from the decoder (an all-zero message of the right length always decodes) and then
+    // every public field is overwritten from generated values, so the content does not depend on the decoder while the
+    // construction keeps working if the struct grows private bookkeeping fields.
+    let bytes = vec![0u8; 22];
+    let mut msg = nexrad_decode::messages::volume_coverage_pattern::decode_volume_coverage_pattern(&mut &bytes[..]).expect("an all-zero VCP header with zero cuts decodes");
+    msg.header = vcp::Header {
+        message_size: (11 + 23 * cuts.len()) as u16,
+        pattern_type: 2,
+        pattern_number: 212,
+        number_of_elevation_cuts: cuts.len() as u16,
+        version: 1,
+        clutter_map_group_number: 0,
+        doppler_velocity_resolution: 2,
+        pulse_width: 2,
+        reserved_1: 0,
+        vcp_sequencing: 0,
+        vcp_supplemental_data: 0,
+        reserved_2: 0,
+    };
+    msg.elevations = cuts.iter().enumerate().map(|(i, (sr, wf, ch))| cut_block(&blank_cut(*sr, *wf, *ch, i as u16))).collect();
+    msg
 }
 
 /// Reference mapping: chunk 1 -> none; a half-degree cut (bit 0 of the super-resolution byte) spans
@@ -230,7 +230,8 @@ pub fn check_estimate(c: &EstCase) -> Check {
     });
 
     // build the stats and the rolling-window model
-    let mut stats = ChunkTimingStats::new();
+    // both public ways to obtain an empty statistics object must behave alike
+    let mut stats = if c.history.len() % 2 == 0 { ChunkTimingStats::new() } else { ChunkTimingStats::default() };
     let mut model: BTreeMap<(u8, u8, u8), VecDeque<(i64, usize)>> = BTreeMap::new();
     for h in &c.history {
         let (t, w, ch) = if h.same_key {
@@ -290,7 +291,7 @@ pub fn check_estimate(c: &EstCase) -> Check {
     // anchored to the upload time; without one it is anchored to the wall clock and differs from call to call).
     if c.with_stats && upload.is_some() {
         for descending in [false, true] {
-            let mut permuted = ChunkTimingStats::new();
+            let mut permuted = if descending { ChunkTimingStats::default() } else { ChunkTimingStats::new() };
             for ((t, w, ch), q) in &model {
                 let key = ChunkCharacteristics { chunk_type: chunk_type_of(*t), waveform_type: waveform_of(*w), channel_configuration: channel_of(*ch) };
                 let mut window: Vec<(i64, usize)> = q.iter().copied().collect();
@@ -481,7 +482,7 @@ fn est_strategy() -> impl Strategy<Value = EstCase> {
 
 pub fn run(ctx: &Ctx, rep: &mut Report) {
     rep.trust("reference models: cumulative 6/3-chunk walk starting after chunk 1; per-key rolling window of the last ten samples");
-    rep.assume("cut blocks and VCP messages are built from public fields (no decoder involved)");
+    rep.assume("cut blocks and VCP messages are built from public fields: the message value comes from decoding an all-zero header, after which every public field is overwritten (the decoder has no influence on the content)");
     rep.assume("the attempt adjustment is only bounded: exactly 0 when every recorded attempt count is 1, otherwise within [0, ceil(mean attempts)] seconds (the statement does not fix the formula)");
     rep.assume("with no upload time on the previous chunk the code reads the wall clock; those cases only assert 'not earlier than the time before the call plus the expected wait'");
 
